@@ -11,7 +11,9 @@ CONSTANTS NITER,       \* total number of refinement iterations of the calculati
           WithB,       \* explore phase B
           AllOrders,   \* TRUE: every iteration order of the selected set; FALSE: ascending only
           RestartIters,\* values of restart_iteration explored (as offsets: -1 = latest, -2, ...; see RIters)
-          MaxLeg       \* largest adpt_num_iter of one call of run() in phase B (small: many stops and restarts)
+          MaxLeg,      \* largest adpt_num_iter of one call of run() in phase B (small: many stops and restarts)
+          FirstLegMax, \* largest adpt_num_iter of the first (fresh) call of phase B (0: stopped right after iteration 0)
+          AllowArgB    \* values of the argument allow_restart of that call (FALSE with dump_results: restartable "for free")
 
 VARIABLES phase, ref, refRet, script
 mcvars == <<phase, ref, refRet, script>>
@@ -50,9 +52,9 @@ EndA == /\ WithB /\ phase = "A" /\ pc = "idle" /\ returned # {}
         /\ act' = [name |-> "EndA"]
         /\ UNCHANGED <<ffiles, pick, pc, mode, kl, coef, resNone, facs, it, start, nit, nkprev, rsum, rsNone, plocal, script>>
 StartB == /\ phase = "B" /\ pc = "idle" /\ returned = {}
-          /\ \E p \in ParB, d \in DumpSet, n \in 0..(NITER - 1) :
-                /\ n <= MaxLeg
-                /\ StartFresh([par |-> p, dump |-> d, allow |-> TRUE, sym |-> mode.sym, restart |-> FALSE], n)
+          /\ \E p \in ParB, d \in DumpSet, n \in 0..(NITER - 1), aarg \in AllowArgB :
+                /\ n <= MaxLeg /\ n <= FirstLegMax
+                /\ StartFreshL([par |-> p, dump |-> d, allow |-> TRUE, sym |-> mode.sym, restart |-> FALSE], n, InitList(mode.sym), aarg)
           /\ UNCHANGED mcvars
 (* back = TRUE: the restart resumes from an iteration before the latest one on disk (restart_iteration < -1 or explicit) *)
 RestartBG(back) ==
